@@ -697,3 +697,397 @@ Proof.
     + intros e rx He. by apply (Hne e rx).
     + intros e rx He. by apply (Hne e rx).
 Qed.
+
+(** * 5. Id generation *)
+
+Global Instance gen_id_inj rule : Inj (=) (=) (gen_id rule).
+Proof.
+  intros k1 k2 H. unfold gen_id in H.
+  apply (inj (String.append rule)) in H. apply (inj (String.append "_")) in H.
+  by apply (inj pretty) in H.
+Qed.
+
+(** if the bounded search gives up, it has seen [fuel] distinct keys *)
+Lemma fresh_None fuel rule cnt (E : gmap string rxn) :
+  fresh fuel rule cnt E = None →
+  ∃ D : gset string, D ⊆ dom E ∧ size D = fuel ∧ ∀ d, d ∈ D → ∃ k, (cnt < k)%N ∧ d = gen_id rule k.
+Proof.
+  revert cnt. induction fuel as [|f IH]; intros cnt; cbn.
+  - intros _. exists ∅. split_and!; [set_solver|apply size_empty|set_solver].
+  - destruct (decide _) as [Hs|Hs]; [|done]. intros (D & HD & Hsz & Hk)%IH.
+    exists ({[gen_id rule (cnt + 1)]} ∪ D). split_and!.
+    + apply elem_of_dom in Hs. set_solver.
+    + rewrite size_union, size_singleton; [lia|].
+      intros d ->%elem_of_singleton (k & Hlt & Heq)%Hk. apply (inj _) in Heq. lia.
+    + intros d [->%elem_of_singleton|(k & ? & ?)%Hk]%elem_of_union.
+      * exists (cnt + 1)%N. split; [lia|done].
+      * exists k. split; [lia|done].
+Qed.
+
+Lemma next_id_total s rule : next_id s rule ≠ None.
+Proof.
+  unfold next_id. intros (D & HD & Hsz & _)%fresh_None.
+  apply subseteq_size in HD. rewrite size_dom in HD. lia.
+Qed.
+
+(** * 6. Refinement to the abstract store  id ↦ reaction *)
+
+Lemma add_spec s l r rule eid s' er e :
+  add s l r rule eid = (s', er, e) →
+  (∀ e0, eid = Some e0 → e = e0) ∧
+  match er with
+  | None => edges s !! e = None ∧ rxn_empty (Rxn (norm_rule rule) l r) = false ∧
+            edges s' = <[e := Rxn (norm_rule rule) l r]> (edges s) ∧ order s' = (order s ++ [e])%list
+  | Some er' => edges s' = edges s ∧ order s' = order s ∧
+            (er' = KeyError ↔ ∃ e0, eid = Some e0 ∧ is_Some (edges s !! e0)) ∧
+            (er' = InternalError ↔ eid = None ∧ next_id s (norm_rule rule) = None)
+  end.
+Proof.
+  unfold add. destruct eid as [e0|].
+  - destruct (decide _) as [Hs|Hs].
+    { intros [= <- <- <-]. split; [by intros ? [= ->]|]. split_and!; try done.
+      - split; [eauto|done].
+      - split; [done|by intros [? _]]. }
+    apply eq_None_not_Some in Hs.
+    destruct (rxn_empty _) eqn:Hem; intros [= <- <- <-]; (split; [by intros ? [= ->]|]).
+    + split_and!; try done.
+      * split; [done|]. intros (? & [= <-] & [? ?]). congruence.
+      * split; [done|by intros [? _]].
+    + done.
+  - destruct (next_id _ _) as [[c e1]|] eqn:Hid.
+    + apply next_id_fresh in Hid.
+      destruct (rxn_empty _) eqn:Hem; intros [= <- <- <-]; (split; [done|]).
+      * split_and!; try done.
+        -- split; [done|]. by intros (? & ? & ?).
+        -- split; [done|]. by intros [_ ?].
+      * done.
+    + intros [= <- <- <-]. split; [done|]. split_and!; try done. split; [done|]. by intros (? & ? & ?).
+Qed.
+
+Lemma fold_frame (f : string → net → net) s0 (D : gset string) :
+  (∀ x acc, same_frame acc (f x acc)) → same_frame s0 (set_fold f s0 D).
+Proof.
+  intros Hf. revert D. apply (set_fold_ind_L (λ acc (_ : gset string), same_frame s0 acc)).
+  - done.
+  - intros x X acc _ (?&?&?&?). destruct (Hf x acc) as (?&?&?&?).
+    unfold same_frame. split_and!; congruence.
+Qed.
+
+Lemma remove_rxn_spec s e s' er :
+  remove_rxn s e = (s', er) →
+  (er = None ∧ is_Some (edges s !! e) ∧ edges s' = delete e (edges s) ∧
+   order s' = filter (λ e', e' ≠ e) (order s)) ∨
+  (er = Some KeyError ∧ edges s !! e = None ∧ s' = s).
+Proof.
+  unfold remove_rxn. destruct (edges s !! e) as [rx|] eqn:He; intros [= <- <-]; [left|by right].
+  split; [done|]. split; [eauto|].
+  match goal with |- context [set_fold ?f (set_fold ?g ?s1 ?D1) ?D2] =>
+    destruct (fold_frame g s1 D1) as (HE1 & HO1 & _); [|destruct (fold_frame f (set_fold g s1 D1) D2) as (HE2 & HO2 & _)]
+  end.
+  - intros x acc. destruct (prune_orphan_frame x (out_discard e x acc)) as (?&?&?&?). done.
+  - intros x acc. destruct (prune_orphan_frame x (in_discard e x acc)) as (?&?&?&?). done.
+  - rewrite HE2, HE1, HO2, HO1. done.
+Qed.
+
+Lemma remove_species_spec s x prune s' er :
+  Inv s → remove_species s x prune = (s', er) →
+  (er = None ∧ x ∈ species s ∧ edges s' = omap (strip_keep x) (edges s)) ∨
+  (er = Some KeyError ∧ x ∉ species s ∧ s' = s).
+Proof.
+  intros HI Heq. destruct (decide (x ∈ species s)) as [Hx|Hx].
+  - left. destruct (remove_species_full s x prune HI Hx) as (H1 & _ & H3).
+    rewrite Heq in H1, H3. done.
+  - right. unfold remove_species in Heq. rewrite decide_False in Heq by done. by simplify_eq.
+Qed.
+
+Lemma remove_species_no_internal_error s x prune :
+  Inv s → (remove_species s x prune).2 ≠ Some InternalError.
+Proof.
+  intros HI. destruct (remove_species s x prune) as [s' er] eqn:Heq.
+  destruct (remove_species_spec _ _ _ _ _ HI Heq) as [(-> & _)|(-> & _)]; done.
+Qed.
+
+(** every other species keeps its coefficients in every reaction *)
+Lemma remove_species_others s x prune s' e rx y :
+  Inv s → remove_species s x prune = (s', None) → edges s !! e = Some rx → y ≠ x →
+  y ∈ rxn_species rx →
+  ∃ rx', edges s' !! e = Some rx' ∧ r_rule rx' = r_rule rx ∧
+         (∀ z, z ≠ x → r_lhs rx' !! z = r_lhs rx !! z ∧ r_rhs rx' !! z = r_rhs rx !! z) ∧
+         r_lhs rx' !! x = None ∧ r_rhs rx' !! x = None.
+Proof.
+  intros HI Heq He Hne Hy.
+  destruct (remove_species_spec _ _ _ _ _ HI Heq) as [(_ & _ & ->)|(? & _)]; [|done].
+  exists (strip x rx). split_and!.
+  - apply lookup_strip. exists rx. split_and!; [done..|].
+    apply elem_of_union in Hy as [Hy|Hy]; [by apply (strip_nonempty_l x y)|by apply (strip_nonempty_r x y)].
+  - done.
+  - intros z Hz. cbn. unfold side in *. by rewrite !lookup_delete_ne.
+  - cbn. unfold side in *. apply lookup_delete.
+  - cbn. unfold side in *. apply lookup_delete.
+Qed.
+
+(** * 7. Incidence = products − reactants *)
+
+Lemma incidence_spec s x e v :
+  (x, e, v) ∈ incidence s ↔
+  ∃ rx, edges s !! e = Some rx ∧ x ∈ rxn_species rx ∧ v = (coef (r_rhs rx) x - coef (r_lhs rx) x)%Z.
+Proof.
+  unfold incidence. rewrite elem_of_list_bind. split.
+  - intros ([e' rx] & Hin & Hm). apply elem_of_map_to_list in Hm.
+    apply elem_of_list_fmap in Hin as (y & [= -> -> ->] & Hy%elem_of_elements). eauto.
+  - intros (rx & He & Hx & ->). exists (e, rx). split; [|by apply elem_of_map_to_list].
+    apply elem_of_list_fmap. exists x. split; [done|]. by apply elem_of_elements.
+Qed.
+
+(** at most one entry per (species, reaction) *)
+Lemma incidence_functional s x e v1 v2 :
+  (x, e, v1) ∈ incidence s → (x, e, v2) ∈ incidence s → v1 = v2.
+Proof.
+  intros (rx1 & H1 & _ & ->)%incidence_spec (rx2 & H2 & _ & ->)%incidence_spec. by simplify_eq.
+Qed.
+
+(** ** merge *)
+
+Lemma rxn_eta rx : Rxn (r_rule rx) (r_lhs rx) (r_rhs rx) = rx.
+Proof. by destruct rx. Qed.
+Lemma norm_rule_id rule : rule ≠ "" → norm_rule rule = rule.
+Proof. intros H. unfold norm_rule. by rewrite decide_False. Qed.
+
+Lemma add_explicit_ok s l r rule e :
+  edges s !! e = None → rxn_empty (Rxn (norm_rule rule) l r) = false →
+  add s l r rule (Some e) = (register s e (Rxn (norm_rule rule) l r), None, e).
+Proof.
+  intros Hn Hem. unfold add. rewrite decide_False by (rewrite Hn; by intros [? ?]). by rewrite Hem.
+Qed.
+
+(** one step of merge never fails on a well-formed reaction and stores it,
+    unchanged, under an id that was free *)
+Lemma merge_one_spec prefix s e rx s2 er2 :
+  r_rule rx ≠ "" → rxn_empty rx = false →
+  merge_one prefix (s, None) e rx = (s2, er2) →
+  er2 = None ∧ ∃ e', edges s !! e' = None ∧ edges s2 = <[e' := rx]> (edges s) ∧
+                     order s2 = (order s ++ [e'])%list ∧
+                     (prefix = false → edges s !! e = None → e' = e).
+Proof.
+  intros Hrule Hem. unfold merge_one.
+  assert (Hrx : Rxn (norm_rule (r_rule rx)) (r_lhs rx) (r_rhs rx) = rx)
+    by (rewrite norm_rule_id by done; apply rxn_eta).
+  destruct (prefix || _) eqn:Hb.
+  - destruct (next_id _ _) as [[c e']|] eqn:Hid; [|by apply next_id_total in Hid].
+    apply next_id_fresh in Hid.
+    rewrite add_explicit_ok; [|done|by rewrite Hrx]. rewrite Hrx. intros [= <- <-].
+    split; [done|]. exists e'. split_and!; [done..|].
+    intros -> Hn. cbn in Hb. apply bool_decide_eq_true in Hb. rewrite Hn in Hb. by destruct Hb.
+  - apply orb_false_iff in Hb as [-> Hb]. apply bool_decide_eq_false in Hb.
+    apply eq_None_not_Some in Hb.
+    rewrite add_explicit_ok; [|done|by rewrite Hrx]. rewrite Hrx. intros [= <- <-].
+    split; [done|]. exists e. done.
+Qed.
+
+Lemma merge_fold_spec prefix l : ∀ s,
+  (∀ e rx, (e, rx) ∈ l → r_rule rx ≠ "" ∧ rxn_empty rx = false) →
+  let res := foldl (λ acc p, merge_one prefix acc p.1 p.2) (s, None) l in
+  res.2 = None ∧ edges s ⊆ edges res.1 ∧
+  (∀ e rx, (e, rx) ∈ l → ∃ e', edges res.1 !! e' = Some rx ∧ edges s !! e' = None) ∧
+  (∀ e' rx, edges res.1 !! e' = Some rx → edges s !! e' = Some rx ∨ ∃ e, (e, rx) ∈ l).
+Proof.
+  induction l as [|[e rx] l IH]; intros s Hl; cbn [foldl fst snd].
+  - split_and!; [done|done|by intros ?? ?%elem_of_nil|by left].
+  - destruct (merge_one prefix (s, None) e rx) as [s2 er2] eqn:H1.
+    destruct (Hl e rx) as [Hr Hem]; [by left|].
+    destruct (merge_one_spec _ _ _ _ _ _ Hr Hem H1) as (-> & e1 & Hn1 & HE2 & _).
+    destruct (IH s2) as (Her & Hsub & Hall & Honly); [intros e0 rx0 ?; apply (Hl e0 rx0); by right|].
+    assert (Hs2 : edges s ⊆ edges s2) by (rewrite HE2; by apply insert_subseteq).
+    split_and!.
+    + done.
+    + by etrans.
+    + intros e0 rx0 [[= -> ->]|Hin]%elem_of_cons.
+      * exists e1. split; [|done]. eapply lookup_weaken; [|done]. rewrite HE2. apply lookup_insert.
+      * destruct (Hall e0 rx0 Hin) as (e' & ? & ?). exists e'. split; [done|].
+        by eapply lookup_weaken_None.
+    + intros e' rx' [Hs|[e0 Hin]]%Honly.
+      * rewrite HE2 in Hs. apply lookup_insert_Some in Hs as [[<- <-]|[_ ?]]; [|by left].
+        right. exists e. by left.
+      * right. exists e0. by right.
+Qed.
+
+Lemma merge_fold_nocoll l : ∀ s,
+  NoDup l.*1 →
+  (∀ e rx, (e, rx) ∈ l → r_rule rx ≠ "" ∧ rxn_empty rx = false ∧ edges s !! e = None) →
+  let res := foldl (λ acc p, merge_one false acc p.1 p.2) (s, None) l in
+  edges res.1 = edges s ∪ list_to_map l ∧ order res.1 = (order s ++ l.*1)%list.
+Proof.
+  induction l as [|[e rx] l IH]; intros s Hnd Hl; cbn [foldl fst snd fmap list_fmap].
+  - split; [by rewrite list_to_map_nil, (right_id_L ∅ (∪))|by rewrite app_nil_r].
+  - destruct (merge_one false (s, None) e rx) as [s2 er2] eqn:H1.
+    destruct (Hl e rx) as (Hr & Hem & Hn); [by left|].
+    destruct (merge_one_spec _ _ _ _ _ _ Hr Hem H1) as (-> & e1 & Hn1 & HE2 & HO2 & He1).
+    rewrite (He1 eq_refl Hn) in *. clear He1.
+    cbn in Hnd. apply NoDup_cons in Hnd as [Hnin Hnd].
+    destruct (IH s2 Hnd) as [HE HO].
+    { intros e0 rx0 Hin. destruct (Hl e0 rx0) as (? & ? & ?); [by right|]. split_and!; [done..|].
+      rewrite HE2, lookup_insert_ne; [done|]. intros <-. apply Hnin.
+      apply elem_of_list_fmap. by exists (e, rx0). }
+    split.
+    + rewrite HE, HE2. rewrite <- insert_union_l. by rewrite insert_union_r.
+    + rewrite HO, HO2. by rewrite <- app_assoc.
+Qed.
+
+Lemma elem_of_edge_seq o e rx : (e, rx) ∈ edge_seq o ↔ e ∈ order o ∧ edges o !! e = Some rx.
+Proof.
+  unfold edge_seq. rewrite elem_of_list_omap. split.
+  - intros (e0 & Hin & Hf). destruct (edges o !! e0) eqn:He; simplify_eq/=. done.
+  - intros [Hin He]. exists e. by rewrite He.
+Qed.
+
+Lemma edge_seq_fst o : (∀ e, e ∈ order o → is_Some (edges o !! e)) → (edge_seq o).*1 = order o.
+Proof.
+  unfold edge_seq. induction (order o) as [|e l IH]; intros H; cbn; [done|].
+  destruct (H e) as [rx ->]; [by left|]. cbn. f_equal. apply IH. intros ??; apply H. by right.
+Qed.
+
+Lemma edge_seq_map o : Inv o → list_to_map (edge_seq o) = edges o.
+Proof.
+  intros HI. apply map_eq. intros e. apply option_eq. intros rx.
+  rewrite <- elem_of_list_to_map.
+  - rewrite elem_of_edge_seq, (inv_order _ HI). split; [by intros [_ ?]|]. split; [eauto|done].
+  - rewrite edge_seq_fst; [apply HI|]. intros ?. apply HI.
+Qed.
+
+Lemma merge_spec s o prefix s' er :
+  Inv o → merge s o prefix = (s', er) →
+  er = None ∧ edges s ⊆ edges s' ∧
+  (∀ e rx, edges o !! e = Some rx → ∃ e', edges s' !! e' = Some rx ∧ edges s !! e' = None) ∧
+  (∀ e' rx, edges s' !! e' = Some rx → edges s !! e' = Some rx ∨ ∃ e, edges o !! e = Some rx) ∧
+  (prefix = false → dom (edges s) ## dom (edges o) →
+   edges s' = edges s ∪ edges o ∧ order s' = (order s ++ order o)%list).
+Proof.
+  intros HO Heq. unfold merge in Heq.
+  assert (Hwf : ∀ e rx, (e, rx) ∈ edge_seq o → r_rule rx ≠ "" ∧ rxn_empty rx = false).
+  { intros e rx [_ He]%elem_of_edge_seq. split; [by eapply (inv_rule _ HO)|by eapply (inv_nonempty _ HO)]. }
+  destruct (merge_fold_spec prefix (edge_seq o) s Hwf) as (Her & Hsub & Hall & Honly).
+  rewrite Heq in Her, Hsub, Hall, Honly. cbn in *. split_and!; [done|done|..].
+  - intros e rx He. apply (Hall e). apply elem_of_edge_seq. split; [|done]. apply (inv_order _ HO). eauto.
+  - intros e' rx [?|[e Hin]]%Honly; [by left|]. right. exists e. by apply elem_of_edge_seq in Hin as [_ ?].
+  - intros -> Hdisj.
+    destruct (merge_fold_nocoll (edge_seq o) s) as [HE HOr].
+    + rewrite edge_seq_fst; [apply HO|]. intros ?. apply HO.
+    + intros e rx Hin. destruct (Hwf e rx Hin). split_and!; [done..|].
+      apply elem_of_edge_seq in Hin as [_ He]. apply not_elem_of_dom.
+      intros Hd. apply (Hdisj e Hd). apply elem_of_dom. eauto.
+    + rewrite Heq in HE, HOr. cbn in *. rewrite edge_seq_map in HE by done.
+      rewrite edge_seq_fst in HOr; [done|]. intros ?. apply HO.
+Qed.
+
+(** ** history level: a stored reaction stays, under its id and unchanged, unless
+    the operation removes it, strips one of its species, or overwrites the whole
+    network by a copy *)
+
+Lemma getn_setn_eq w k s : k < length w → getn (setn w k s) k = s.
+Proof.
+  intros Hk. unfold getn, setn, world in *. rewrite nth_lookup, list_lookup_insert; done.
+Qed.
+Lemma getn_ge w k : length w ≤ k → getn w k = empty_net.
+Proof. intros Hk. unfold getn, world in *. by rewrite nth_lookup, lookup_ge_None_2. Qed.
+
+Definition may_drop (o : op) (k : nat) (e : string) (rx : rxn) : Prop :=
+  match o with
+  | ORemoveRxn i e' => i = k ∧ e' = e
+  | ORemoveSpecies i x _ => i = k ∧ x ∈ rxn_species rx
+  | OCopy _ j => j = k
+  | _ => False
+  end.
+
+Lemma strip_absent x rx : x ∉ rxn_species rx → strip x rx = rx.
+Proof.
+  intros Hx. unfold strip, rxn_species in *. destruct rx as [ru l r]. cbn in *. unfold side in *.
+  rewrite !delete_notin; [done|apply not_elem_of_dom; set_solver..].
+Qed.
+
+Lemma step_stored_kept w o k e rx :
+  Forall Inv w → edges (getn w k) !! e = Some rx → ¬ may_drop o k e rx →
+  edges (getn (step w o).1 k) !! e = Some rx.
+Proof.
+  intros Hw He Hnd. destruct (decide (k = target o)) as [->|Hne]; [|by rewrite step_frame].
+  destruct (decide (target o < length w)) as [Hlt|Hge]; cycle 1.
+  { rewrite getn_ge in He by lia. cbn in He. by rewrite lookup_empty in He. }
+  pose proof (getn_Inv w (target o) Hw) as HI.
+  destruct o as [i l r rule eid|i e'|i x p|i j p|i j|i x m|i mp st cl]; cbn [step target may_drop fst] in *.
+  - destruct (add _ _ _ _ _) as [[s' er] e0] eqn:Ha. cbn [fst]; rewrite getn_setn_eq by done.
+    apply add_spec in Ha as [_ Ha]. destruct er as [er|].
+    + destruct Ha as (-> & _). done.
+    + destruct Ha as (Hn & _ & -> & _). rewrite lookup_insert_ne; [done|]. intros <-. congruence.
+  - destruct (remove_rxn _ _) as [s' er] eqn:Ha. cbn [fst]; rewrite getn_setn_eq by done.
+    apply remove_rxn_spec in Ha as [(_ & _ & -> & _)|(_ & _ & ->)]; [|done].
+    rewrite lookup_delete_ne; [done|]. intros ->. by apply Hnd.
+  - destruct (remove_species _ _ _) as [s' er] eqn:Ha. cbn [fst]; rewrite getn_setn_eq by done.
+    apply remove_species_spec in Ha as [(_ & _ & ->)|(_ & _ & ->)]; [|done..].
+    apply lookup_strip. exists rx. assert (Hx : x ∉ rxn_species rx) by (intros ?; by apply Hnd).
+    rewrite strip_absent by done. split_and!; [done..|]. by eapply (inv_nonempty _ HI).
+  - destruct (merge _ _ _) as [s' er] eqn:Ha. cbn [fst]; rewrite getn_setn_eq by done.
+    apply merge_spec in Ha as (_ & Hsub & _); [|by apply getn_Inv].
+    by eapply lookup_weaken.
+  - by destruct Hnd.
+  - unfold assign_mol. destruct (decide _); cbn [fst]; by rewrite getn_setn_eq.
+  - unfold set_mol_map. destruct (_ && _); cbn [fst]; by rewrite getn_setn_eq.
+Qed.
+
+Lemma copy_spec w i j : j < length w → getn (step w (OCopy i j)).1 j = getn w i.
+Proof. intros Hj. cbn. by apply getn_setn_eq. Qed.
+
+(** * 8. Non-vacuity *)
+
+Local Instance err_eq_dec : EqDecision err.
+Proof. solve_decision. Defined.
+
+Definition ex_history : list op :=
+  [ OAdd 0 [("A", 1%Z); ("B", 2%Z)] [("C", 1%Z)] "" None;
+    OCopy 0 1;
+    ORemoveSpecies 0 "A" true ].
+
+(** a concrete 3-op history: the original loses A (and only A), the copy taken
+    before the edit keeps it; the hypotheses of the step theorems are inhabited *)
+Example C15_history_nonvacuous :
+  let w := fold_left (λ w o, (step w o).1) ex_history (init_world 2) in
+  Forall Inv w ∧
+  order (getn w 0) = ["r_1"] ∧ order (getn w 1) = ["r_1"] ∧
+  species (getn w 0) = {["B"; "C"]} ∧ species (getn w 1) = {["A"; "B"; "C"]} ∧
+  r_lhs <$> edges (getn w 0) !! "r_1" = Some {["B" := 2%positive]} ∧
+  r_lhs <$> edges (getn w 1) !! "r_1" = Some {["A" := 1%positive; "B" := 2%positive]} ∧
+  list_to_set (incidence (getn w 0)) =@{gset (string * string * Z)} {[("B", "r_1", (-2)%Z); ("C", "r_1", 1%Z)]}.
+Proof.
+  cbv zeta. split; [apply run_Inv, init_world_Inv|].
+  split_and!; apply (bool_decide_unpack _); vm_compute; exact I.
+Qed.
+
+(** the repaired id generator: after a caller-chosen "r_1" the generated id is
+    "r_2" and the first reaction is still stored (before the repair the model of
+    the old code returned "r_1" and overwrote it) *)
+Example C15_old_id_collision :
+  let '(s1, er1, e1) := add empty_net {["A" := 1%positive]} {["B" := 1%positive]} "r" (Some "r_1") in
+  let '(s2, er2, e2) := add s1 {["C" := 1%positive]} {["D" := 1%positive]} "" None in
+  er1 = None ∧ e1 = "r_1" ∧ er2 = None ∧ e2 = "r_2" ∧
+  r_lhs <$> edges s2 !! "r_1" = Some {["A" := 1%positive]} ∧
+  r_lhs <$> edges s2 !! "r_2" = Some {["C" := 1%positive]} ∧
+  default ∅ (s_out s2 !! "A") = {["r_1"]} ∧ default ∅ (s_in s2 !! "D") = {["r_2"]}.
+Proof.
+  apply (bool_decide_unpack _). vm_compute. exact I.
+Qed.
+
+(** remove_rxn / merge / error outcomes are exercised too *)
+Example C15_ops_nonvacuous :
+  let '(s1, _, _) := add empty_net {["A" := 1%positive]} {["B" := 1%positive]} "r" None in
+  let '(s2, _, _) := add s1 {["B" := 1%positive]} {["C" := 3%positive]} "q" (Some "x") in
+  let '(s3, er3) := remove_rxn s2 "r_1" in
+  let '(s4, er4) := merge s3 s2 true in
+  let '(s5, er5) := merge s3 s2 false in
+  er3 = None ∧ species s3 = {["B"; "C"]} ∧ order s3 = ["x"] ∧
+  er4 = None ∧ order s4 = ["x"; "r_2"; "q_1"] ∧
+  er5 = None ∧ order s5 = ["x"; "r_1"; "q_1"] ∧
+  (remove_rxn s3 "r_1").2 = Some KeyError ∧
+  (remove_species s3 "A" true).2 = Some KeyError ∧
+  (add s3 ∅ ∅ "r" None).1.2 = Some ValueError ∧
+  (add s3 {["A" := 1%positive]} ∅ "r" (Some "x")).1.2 = Some KeyError.
+Proof.
+  apply (bool_decide_unpack _). vm_compute. exact I.
+Qed.
